@@ -9,7 +9,7 @@ package main
 
 import (
 	"encoding/json"
-		"fmt"
+	"fmt"
 	"os"
 	"sort"
 	"strings"
@@ -18,11 +18,12 @@ import (
 )
 
 type judged struct {
-	p   *Prog
-	o   obs
-	o2  *obs // second run (determinism), typed streams only
-	ref *Val
-	err error
+	lets []KV // reference values of the top-level lets of the main body
+	p    *Prog
+	o    obs
+	o2   *obs // second run (determinism), typed streams only
+	ref  *Val
+	err  error
 }
 
 func obsString(o obs) string {
@@ -109,11 +110,11 @@ func verdict(j *judged) (string, string) {
 		fam = "via-parser:" + fam
 	}
 	if j.o.Other != "" {
-		return "abnormal-end:"+fam, fmt.Sprintf("[%s] evaluation ended abnormally (%s): %s", fam, j.o.Other, progText(p))
+		return "abnormal-end:" + fam, fmt.Sprintf("[%s] evaluation ended abnormally (%s): %s", fam, j.o.Other, progText(p))
 	}
 	// (1) the value defined by the expression language
 	if j.o.Exit1 {
-		return "evaluation-fails:"+fam, fmt.Sprintf("[%s] a well-typed view whose value is %s ends the process with status 1: %s", fam, j.ref.String(), progText(p))
+		return "evaluation-fails:" + fam, fmt.Sprintf("[%s] a well-typed view whose value is %s ends the process with status 1: %s", fam, j.ref.String(), progText(p))
 	}
 	if fam == "nested-let-rebinds-outer-let" && j.o.V.K == "m" && !valEq(j.o.V, j.ref) {
 		// what "the nested let overwrote the outer one" predicts: out = the inner transform's x
@@ -132,7 +133,7 @@ func verdict(j *judged) (string, string) {
 		}
 	}
 	if !valEq(j.o.V, j.ref) {
-		return "wrong-value:"+fam, fmt.Sprintf("[%s] EvaluateView returned %s, the expression semantics give %s: %s", fam, j.o.V.String(), j.ref.String(), progText(p))
+		return "wrong-value:" + fam, fmt.Sprintf("[%s] EvaluateView returned %s, the expression semantics give %s: %s", fam, j.o.V.String(), j.ref.String(), progText(p))
 	}
 	// (2) no variable bound before the evaluation is bound to another value afterwards
 	lets := letNames(p)
@@ -142,7 +143,15 @@ func verdict(j *judged) (string, string) {
 		if has && valEq(after, kv.V) {
 			continue
 		}
-		if lets[kv.Key] {
+		// attributed to the known let-rebinding only when the variable now holds exactly what the reference says the
+		// (last) top-level `let` of that name computes
+		var want *Val
+		for _, l := range j.lets {
+			if l.Key == kv.Key {
+				want = l.V
+			}
+		}
+		if lets[kv.Key] && has && want != nil && valEq(after, want) {
 			changedByLet = append(changedByLet, kv.Key)
 		} else {
 			changed = append(changed, kv.Key)
@@ -155,7 +164,7 @@ func verdict(j *judged) (string, string) {
 			as = after.String()
 		}
 		before, _ := kvGet(p.Scope, changed[0])
-		return "caller-binding-changed:"+fam, fmt.Sprintf("[%s] variable %s of the caller's scope was %s before the evaluation and is %s afterwards: %s", fam, changed[0], before.String(), as, progText(p))
+		return "caller-binding-changed:" + fam, fmt.Sprintf("[%s] variable %s of the caller's scope was %s before the evaluation and is %s afterwards: %s", fam, changed[0], before.String(), as, progText(p))
 	}
 	if len(changedByLet) > 0 {
 		return "caller-binding-rebound-by-let", fmt.Sprintf("[%s] the view has a `let %s` and variable %s of the caller's scope holds another value after the evaluation: %s", fam, changedByLet[0], changedByLet[0], progText(p))
@@ -165,7 +174,7 @@ func verdict(j *judged) (string, string) {
 		a, _ := json.Marshal(j.o)
 		b, _ := json.Marshal(*j.o2)
 		if string(a) != string(b) {
-			return "nondeterministic:"+fam, fmt.Sprintf("[%s] two evaluations of the same view on the same scope differ: %s vs %s: %s", fam, obsString(j.o), obsString(*j.o2), progText(p))
+			return "nondeterministic:" + fam, fmt.Sprintf("[%s] two evaluations of the same view on the same scope differ: %s vs %s: %s", fam, obsString(j.o), obsString(*j.o2), progText(p))
 		}
 	}
 	return "", ""
@@ -263,7 +272,7 @@ func matrixLeaves() []*Expr {
 		eLit(&Val{K: "null"}), eName("nosuch"), eName("."),
 		eLit(vList([]*Val{})), eLit(vList([]*Val{vInt(1), vInt(1)})), eLit(vList([]*Val{vStr("a"), vStr("b")})),
 		eLit(vList([]*Val{vList([]*Val{vInt(1)}), vList([]*Val{vInt(2), vInt(1)})})), eLit(vList([]*Val{m1})),
-		eLit(vList([]*Val{vSet([]*Val{vStr("a")})})),
+		eLit(vList([]*Val{vSet([]*Val{vStr("a")})})), eLit(vList([]*Val{{K: "null"}, {K: "null"}})), eLit(vSet([]*Val{{K: "null"}})),
 		eLit(vSet([]*Val{})), eLit(vSet([]*Val{vInt(2), vInt(1), vInt(2)})), eLit(vSet([]*Val{vStr("b"), vStr("a")})),
 		eLit(vSet([]*Val{vSet([]*Val{vInt(1)}), vSet([]*Val{vInt(1)})})), eLit(vSet([]*Val{m1})), eLit(vSet([]*Val{vList([]*Val{vInt(5)})})),
 		eLit(m1),
@@ -387,7 +396,7 @@ func main() {
 		j := &judged{p: &p, o: runOne(&p)}
 		o2 := runOne(&p)
 		j.o2 = &o2
-		j.ref, _, j.err = refRun(&p)
+		j.ref, j.lets, j.err = refRun(&p)
 		judge(c, j)
 		c.Count("replay", true)
 		rs := "outside the reference semantics"
@@ -525,7 +534,7 @@ func main() {
 	for i, p := range progs {
 		j := &judged{p: p, o: obsv[i], o2: second[i]}
 		if p.Typed {
-			j.ref, _, j.err = refRun(p)
+			j.ref, j.lets, j.err = refRun(p)
 		}
 		judge(c, j)
 		b, _ := json.Marshal(p)
